@@ -415,15 +415,23 @@ M('c09-twin-guard-var', 'C09', GENG, "    for i in range(n):\n        circuit.ad
 M('c04-sem-gt', 'C04', SUBC, "return self.max_pattern - ((self.max_pattern - operands[0]) | operands[1])", "return self.max_pattern - (operands[0] | (self.max_pattern - operands[1]))", 'C04.SEM')
 M('c04-sem-nary', 'C04', SUBC, "            return functools.reduce(operator.or_, operands)\n        elif oper_type == 'NOR':", "            return operands[0] | operands[1]\n        elif oper_type == 'NOR':", 'C04.SEM')
 M('c04-sem-else', 'C04', SUBC, "        else:\n            raise UnsupportedOperationError()", "        else:\n            return operands[0]", 'C04.SEM')
-M('c04-pol-second', 'C04', SUBC, "                new_gate = output_labels_mapping[negation_gate]\n\n                for user in new_subcircuit.get_gate_users(new_gate):\n                    if new_subcircuit.get_gate(user).gate_type.name == 'NOT':\n                        output_labels_mapping[output] = user\n                        new_subcircuit.mark_as_output(user)\n                        break",
-  "                new_gate = output_labels_mapping[negation_gate]\n                output_labels_mapping[output] = negation_gate", 'C04.POL')
+M('c04-pol-second', 'C04', SUBC, "                for user in new_subcircuit.get_gate_users(new_gate):\n                    if new_subcircuit.get_gate(user).gate_type.name == 'NOT':\n                        output_labels_mapping[output] = user\n                        new_subcircuit.mark_as_output(user)\n                        break\n                else:",
+  "                for user in new_subcircuit.get_gate_users(new_gate):\n                    if new_subcircuit.get_gate(user).gate_type.name != 'NOT':\n                        output_labels_mapping[output] = user\n                        new_subcircuit.mark_as_output(user)\n                        break\n                else:", 'C04.')
 M('c04-snap-late', 'C04', SUBC, "    initial_circuit: Circuit = copy.deepcopy(circuit)\n    subcircuits: list[_Subcircuit] = _get_subcircuits(\n        circuit, cuts, cut_nodes, max_subcircuit_size, cut_size\n    )\n    subcircuits = _eval_dont_cares(circuit, subcircuits)",
-  "    subcircuits: list[_Subcircuit] = _get_subcircuits(\n        circuit, cuts, cut_nodes, max_subcircuit_size, cut_size\n    )\n    circuit.order_outputs([])\n    initial_circuit: Circuit = copy.deepcopy(circuit)\n    subcircuits = _eval_dont_cares(circuit, subcircuits)", 'C04.SNAP')
-M('c04-snap-shallow', 'C04', SUBC, "    initial_circuit: Circuit = copy.deepcopy(circuit)", "    initial_circuit: Circuit = circuit", 'C04.SNAP')
-M('c04-validation-inverted', 'C04', SUBC, "        if is_circuit_satisfiable(miter_circuit).answer:\n            raise FailedValidationError()", "        if not is_circuit_satisfiable(miter_circuit).answer:\n            raise FailedValidationError()", 'C04.SNAP')
+  "    subcircuits: list[_Subcircuit] = _get_subcircuits(\n        circuit, cuts, cut_nodes, max_subcircuit_size, cut_size\n    )\n    circuit.order_outputs([])\n    initial_circuit: Circuit = copy.deepcopy(circuit)\n    subcircuits = _eval_dont_cares(circuit, subcircuits)", None)
+M('c04-snap-shallow', 'C04', SUBC, "    initial_circuit: Circuit = copy.deepcopy(circuit)", "    initial_circuit: Circuit = circuit", None)
+M('c04-validation-inverted', 'C04', SUBC, "        if is_circuit_satisfiable(miter_circuit).answer:\n            raise FailedValidationError()", "        if not is_circuit_satisfiable(miter_circuit).answer:\n            raise FailedValidationError()", 'C04.')
 M('c04-size-same', 'C04', SUBC, "                TruthTableModel(outputs_tt),\n                size - 1,", "                TruthTableModel(outputs_tt),\n                size,", None)
 M('c04-size-basis', 'C04', SUBC, "                size - 1,\n                basis=_basis,", "                size - 1,", 'C04.')
-M('c04-size-all-outputs', 'C04', SUBC, "            if subcircuit.outputs[i] in filtered_outputs\n        ]", "            if subcircuit.outputs[i] in subcircuit.outputs\n        ]", 'C04.SIZE')
+# reverts of the repairs F02/F03/F23/F30-F33 (each must be reported again)
+M('c04-revert-f03', 'C04', SUBC, "                    circuit._remove_user(output, user)\n                    circuit._add_user(new_output, user)", "                    circuit._gate_to_users[new_output].append(user)", None)
+M('c04-revert-f02', 'C04', SUBC, "                outputs_negation_mapping[output] = found_patterns[MAX_PATTERN - pattern]", "                outputs_mapping[output] = found_patterns[MAX_PATTERN - pattern]", 'C04.FOLD')
+M('c04-revert-f23', 'C04', SUBC, "                    else input_labels_mapping[negation_gate]", "                    else output_labels_mapping[negation_gate]", 'C04.FOLD')
+M('c04-revert-f30', 'C04', SUBC, "            is_output: bool = node in outputs_set or not users", "            is_output: bool = node in outputs_set", 'C04.FOLD')
+M('c04-revert-f31', 'C04', SUBC, "circuit.evaluate_full_circuit(assignment).items()", "circuit.evaluate_circuit(assignment).items()", 'C04.FOLD')
+M('c04-revert-f32', 'C04', SUBC, "            if i < len(labels_to_remove):\n                subcircuit.rename_gate(node.label, labels_to_remove[i])", "            subcircuit.rename_gate(node.label, labels_to_remove[i])", 'C04.FOLD')
+M('c04-revert-f33', 'C04', SUBC, "            node_states[gate] = _NodeState.REMOVED\n\n        circuit = new_circuit", "            pass\n\n        circuit = new_circuit", 'C04.FOLD')
+M('c04-size-all-outputs', 'C04', SUBC, "            if subcircuit.outputs[i] in filtered_outputs\n        ]", "            if subcircuit.outputs[i] in subcircuit.outputs\n        ]", 'C04.')
 M('c04-twin-rename', 'C04', SUBC, "    initial_circuit: Circuit = copy.deepcopy(circuit)", "    initial_circuit = copy.deepcopy(circuit)", None)
 
 # C12.FOLD
@@ -448,7 +456,7 @@ M('c03-stateless', 'C03', MUO, "        _new_circuit = Circuit()\n\n        # re
 M('c03-sym-set', 'C03', MDG, "                _operands = tuple(sorted(_operands))", "                _operands = tuple(sorted(set(_operands)))", 'C03.SYM')
 M('c05-parity-dedupe', 'C05', TSE, "    for signs in itertools.product((-1, 1), repeat=len(lits)):", "    lits = list(dict.fromkeys(lits))\n    for signs in itertools.product((-1, 1), repeat=len(lits)):", 'C05.TPL')
 M('c05-twin-and-dedupe', 'C05', TSE, "    common = [top_lit]\n    for lit in lits:\n        common.append(-lit)\n        cnf.append([lit, -top_lit])", "    common = [top_lit]\n    for lit in dict.fromkeys(lits):\n        common.append(-lit)\n        cnf.append([lit, -top_lit])", None)
-M('c04-outs-first-only', 'C04', SUBC, "                circuit._outputs = [\n                    new_output if x == output else x for x in circuit._outputs\n                ]", "                circuit._outputs[circuit.index_of_output(output)] = new_output", 'C04.OUTS')
+M('c04-outs-first-only', 'C04', SUBC, "                circuit._outputs = [\n                    new_output if x == output else x for x in circuit._outputs\n                ]", "                circuit._outputs[circuit.index_of_output(output)] = new_output", 'C04.')
 M('c07-fold-shift-concat', 'C07', SUMF, "            for i in range(n, shift):\n                d[i] = [zero]", "            for i in range(n, shift):\n                d[i] = [input_labels_b[0]]", 'C07.FOLD')
 M('c07-worklist', 'C07', SUMF, "    while len(single) > 1 or len(pairs) > 1:\n        lev_single, _ = single[0]\n        lev_pairs, _, _ = pairs[0]\n        now_level = min(lev_single, lev_pairs)\n        if now_level == inf:\n            break\n        now_singles = []\n        now_pairs = []\n        while single[0][0] == now_level:\n            now_singles.append(single[0][1])\n            single.discard(single[0])\n        while pairs[0][0] == now_level:\n            now_pairs.append((pairs[0][1], pairs[0][2]))\n            pairs.discard(pairs[0])\n\n        next_solo = []",
   "    while len(single) > 1:\n        lev_single, _ = single[0]\n        lev_pairs, _, _ = pairs[0]\n        now_level = min(lev_single, lev_pairs)\n        if now_level == inf:\n            break\n        now_singles = []\n        now_pairs = []\n        while single[0][0] == now_level:\n            now_singles.append(single[0][1])\n            single.discard(single[0])\n        while pairs[0][0] == now_level:\n            now_pairs.append((pairs[0][1], pairs[0][2]))\n            pairs.discard(pairs[0])\n\n        next_solo = []", 'C07.WORKLIST')
@@ -483,7 +491,7 @@ M('r2-c04-dec-loops-swapped', 'C04', SEARCH, "        for h in self._outputs:\n 
 M('r2-c06-exactly-one-empty', 'C06', SEARCH, "        self._cnf.append(literals)\n        self._cnf.extend([[-a, -b]", "        if literals:\n            self._cnf.append(literals)\n        self._cnf.extend([[-a, -b]", 'C06.ENC')
 M('r2-c04-size-operands', 'C04', SUBC, "            if oper_type != 'NOT':\n                circuit_size += 1", "            circuit_size += max(len(operands) - 1, 0)", 'C04.CONE')
 M('r2-c04-dc-lsb-first', 'C04', SUBC, "            assignment: str = ''.join(i)\n", "            assignment: str = ''.join(reversed(i))\n", 'C04.CONE')
-M('r2-c04-outputs-only-marked', 'C04', SUBC, "            is_output: bool = node in outputs_set\n            if not is_output:", "            is_output: bool = node in outputs_set\n            if is_output:", 'C04.CONE')
+M('r2-c04-outputs-only-marked', 'C04', SUBC, "            is_output: bool = node in outputs_set or not users\n            if not is_output:", "            is_output: bool = node in outputs_set or not users\n            if is_output:", 'C04.CONE')
 M('r2-c07-adder-last-bit', 'C07', SUMF, "        if i < m:\n            inp.append(input_labels_b[i])\n        d[i] = list(add_sum_n_bits(circuit, inp))", "        if i < m - 1:\n            inp.append(input_labels_b[i])\n        d[i] = list(add_sum_n_bits(circuit, inp))", 'C07.FOLD')
 M('r2-c07-sortedset', 'C07', SUMF, "    single = SortedList(input_labels_with_pow)  # sorted list of single", "    single = SortedList(set(input_labels_with_pow))  # sorted list of single", 'C07.ARGS')
 M('r2-c08-alter-shift', 'C08', MULF, "        res = add_sum_two_numbers_with_shift(circuit, i, res, c[i])", "        res = add_sum_two_numbers_with_shift(circuit, i - 1, res, c[i])", 'C08.FOLD')
